@@ -64,6 +64,9 @@ CLAIMED = {
    tech="TLC evaluates the literal grammars and exact decimal/binary rounding-interval test of CelNumLit/Dbl (laws checked in CelNumLitMC); trace validation of every boundary literal form and conversion executed by cel-rust",
    text="Int/uint literals (decimal, hex, signed, u-suffixed) are specified by their exact BigInt denotation and range; a double literal or double(string) result is accepted iff it lies in the rounding interval of the exact decimal (decided with exact big-number comparison, no floating point), out-of-range literals must be compile errors; int()/uint()/double() are specified on exact values (truncation, NaN/inf/range errors). cel-rust is run on all boundary values and random 64-bit patterns in every literal form and through every conversion and string() round trip.",
    note="This is the weaker fit for TLA+ (a transcribed function evaluated by TLC); the transcription is written from the CEL/IEEE definitions, not from the Rust, and its laws are checked in CelNumLitMC. " + NOTE_COMMON),
+ "C12": dict(cat="model_checking", ref="6 C12",
+   tech="TLC: CelLiteral decoder automaton with theorem Decode(Encode(s)) = s over all short strings x quoting styles x spelling choices; trace validation of every escape in every style executed by cel-rust; known findings as named KF_ actions",
+   text="The literal decoder (prefixes, four quoting styles, raw forms, every escape family, surrogate / range rules, UTF-8 for bytes) is an explicit automaton; TLC checks that every spelling of every string of length <=2 over a 9-character alphabet decodes to that string. cel-rust compiles and evaluates every \\x, \\X, \\OOO, \\u (sampled in quick, all in thorough), boundary \\U and single-character escape in every style as string, bytes, raw and raw-bytes literal, malformed escapes, and random strings with random spelling; each value must equal the decoder's and each invalid literal must be a compile error. Three pinned/generated-code defects are modelled as KF_ actions and reported as KNOWN-FINDING."),
 }
 
 def main():
